@@ -1,0 +1,96 @@
+//! Read-only instrumentation for external verification harnesses.
+//!
+//! This module only exists when the `verif-hooks` cargo feature is enabled,
+//! which nothing in this workspace does. It adds no behaviour: it exposes
+//! views of private state (and a wrapper around the private tokenizer) that
+//! a test harness living outside this repository can use as observation
+//! points.
+
+use std::ops::Range;
+
+use crate::{
+    random::Rng, string_manager::StringManager, syntax_error::TokenizationError,
+    tokenizer::Tokenizer, Token,
+};
+
+/// A read-only summary of an interpreter's runtime state.
+#[derive(Debug, Clone, PartialEq, Default)]
+pub struct Snapshot {
+    /// One entry per GOSUB / function-call frame, innermost last; each is the
+    /// sorted list of (bound name, bound value is a string).
+    pub frames: Vec<Vec<(String, bool)>>,
+    /// Variable names of the open FOR loops, innermost last.
+    pub loops: Vec<String>,
+    /// Sorted names of the currently defined functions.
+    pub functions: Vec<String>,
+    pub has_breakpoint: bool,
+    pub has_data_cursor: bool,
+    /// Sorted list of (name, value is a string).
+    pub variables: Vec<(String, bool)>,
+    /// Sorted list of (name, dimension sizes, number of cells, cells are strings).
+    pub arrays: Vec<(String, Vec<usize>, usize, bool)>,
+    /// Whether a reply has been provided but not yet consumed.
+    pub pending_input: bool,
+}
+
+/// How tokenization of a line failed.
+#[derive(Debug, Clone, PartialEq)]
+pub enum TokenizeFailureKind {
+    IllegalCharacter,
+    UnterminatedStringLiteral,
+    InvalidNumber,
+}
+
+#[derive(Debug, Clone, PartialEq)]
+pub struct TokenizeFailure {
+    /// The tokens (with their ranges) produced before the failure.
+    pub tokens_before: Vec<(Token, Range<usize>)>,
+    pub kind: TokenizeFailureKind,
+    /// `TokenizationError::string_range()` for the line.
+    pub range: Range<usize>,
+}
+
+/// Tokenizes `line` (skipping its first `skip_bytes` bytes) with the real
+/// tokenizer and reports every token together with its byte range.
+pub fn tokenize_with_ranges(
+    line: &str,
+    skip_bytes: usize,
+) -> Result<Vec<(Token, Range<usize>)>, TokenizeFailure> {
+    let mut string_manager = StringManager::default();
+    let tokenizer = Tokenizer::new(line, &mut string_manager).skip_bytes(skip_bytes);
+    let mut tokens = vec![];
+    for item in tokenizer {
+        match item {
+            Ok(pair) => tokens.push(pair),
+            Err(err) => {
+                let range = err.string_range(line.len());
+                let kind = match err {
+                    TokenizationError::IllegalCharacter(_) => TokenizeFailureKind::IllegalCharacter,
+                    TokenizationError::UnterminatedStringLiteral(_) => {
+                        TokenizeFailureKind::UnterminatedStringLiteral
+                    }
+                    TokenizationError::InvalidNumber(_) => TokenizeFailureKind::InvalidNumber,
+                };
+                return Err(TokenizeFailure {
+                    tokens_before: tokens,
+                    kind,
+                    range,
+                });
+            }
+        }
+    }
+    Ok(tokens)
+}
+
+/// Where the line-number parser says the BASIC line number of `line` ends.
+pub fn parse_line_number(line: &str) -> Option<(u64, usize)> {
+    crate::line_number_parser::parse_line_number(line)
+}
+
+/// Performs one step of the random number generator from the given state,
+/// returning the value produced and the `RND(0)` value read back afterwards.
+pub fn rng_step(state: u64) -> (f64, f64) {
+    let mut rng = Rng::new(state);
+    let value = rng.random();
+    (value, rng.latest_random())
+}
